@@ -351,6 +351,35 @@ theorem max_depth_terminates_on_every_node {c : Dag} {P : Reg → List NodeId} (
   obtain ⟨d, hd, hb⟩ := all_hasDepth g hpl n hn
   exact ⟨d, maxDepth_of_hasDepth hd _ (by push_cast; omega)⟩
 
+/-- **the depth metrics need no assumption on labels beyond "no operation is filed under `Input`"** (`NoInputKey`): on every circuit
+    satisfying DagInv — by C12 `history_from_init` every circuit reachable by well-formed edits, whatever user labels its operations
+    carry, e.g. the solver's "Fixed" — with that property, `register_depth` (literal `_max_depth`), `CircuitDepth` under the recorded
+    networkx specification and with the model's own longest-path computation equal the specifications on any schedule, and the
+    model's longest-path computation meets the networkx specification -/
+theorem depth_metrics_with_user_labels {c : Dag} {P : Reg → List NodeId} {L : List (NodeId × Op)} (g : Good c P)
+    (hk : NoInputKey c) (hS : Sched c P L) :
+    (∀ t, c.calculateRegDepth t = .ok ((List.range (c.regs t)).map (fun i => (Spec.regDepth (L.map (·.2)) ⟨t, i⟩ : Int)))) ∧
+    (c.nodeIds ≠ [] → ∀ Lp, LongestPathSpec c Lp → Metrics.circuitDepthWith Lp = (Spec.depth (L.map (·.2)) : Int)) ∧
+    (c.nodeIds ≠ [] → Metrics.circuitDepth c = (Spec.depth (L.map (·.2)) : Int)) ∧
+    LongestPathSpec c c.longestPathLen :=
+  ⟨calculateRegDepth_eq_spec_sched_of g hk hS, fun hne _ hLp => circuitDepth_eq_spec_sched_of g hk hS hne hLp,
+    fun hne => circuitDepth_model_eq_spec_of g hk hS hne, longestPathLen_spec_of g hk⟩
+
+/-- **the two label-index counts need only that no operation carries one of the queried names as a label** (`CountOK`): on every
+    circuit satisfying DagInv with that property — arbitrary other user labels — `CircuitCnotCount` and `CircuitMeasureCount` equal
+    the counts on the operation list of any schedule -/
+theorem counts_with_user_labels {c : Dag} {P : Reg → List NodeId} {L : List (NodeId × Op)} (g : Good c P) (hc : CountOK c)
+    (hS : Sched c P L) :
+    Metrics.cnotCount c = Spec.cnotCount (L.map (·.2)) ∧ Metrics.measureCount c = Spec.measureCount (L.map (·.2)) :=
+  ⟨cnotCount_eq_spec_sched_of g hc hS, measureCount_eq_spec_sched_of g hc hS⟩
+
+/-- a decidable sufficient condition for `NoInputKey` -/
+theorem noInputKey_of_check {c : Dag}
+    (h : c.nodes.all (fun p => match p.1 with | .op _ => !p.2.indexKeys.contains "Input" | _ => true) = true) : NoInputKey c := by
+  intro i o hm hin
+  have := List.all_eq_true.mp h (.op i, o) hm
+  simp [hin] at this
+
 /-- … in particular with the operations in ANY topological order (what `sequence()` hands to the compilers) -/
 theorem metrics_eq_spec_in_any_topological_order {c : Dag} {P : Reg → List NodeId} (g : Good c P) (hpl : AllPlain c)
     {pos : NodeId → Nat} (hlin : LinearExt c pos) (hinj : ∀ a ∈ c.nodeIds, ∀ b ∈ c.nodeIds, pos a = pos b → a = b) :
@@ -652,6 +681,22 @@ theorem metrics_after_history_from {c : Dag} (h : DagInv c) (hh : GroupHyp c) (e
   obtain ⟨⟨P, g⟩, hh'⟩ := C12.history_groupHyp es h hh hok
   exact metrics_eq_spec_of_wires g hh'.plain
 
+/-- **depth metrics after any history, whatever the user labels**: for every history of well-formed edits (`C12.HistOK`: no
+    assumption on labels or on how operations were constructed) from a fresh circuit, if no operation of the reached circuit is filed
+    under `Input`, then `register_depth` and `CircuitDepth` equal their specifications on every schedule of it -/
+theorem depth_after_history_with_user_labels (ne np nc : Nat) (es : List C12.Edit) (hok : C12.HistOK (Dag.init ne np nc) es)
+    (hk : NoInputKey (C12.run (Dag.init ne np nc) es)) :
+    ∃ P, Good (C12.run (Dag.init ne np nc) es) P ∧ (∃ L, Sched (C12.run (Dag.init ne np nc) es) P L) ∧
+      ∀ L, Sched (C12.run (Dag.init ne np nc) es) P L →
+        (∀ t, (C12.run (Dag.init ne np nc) es).calculateRegDepth t =
+          .ok ((List.range ((C12.run (Dag.init ne np nc) es).regs t)).map (fun i => (Spec.regDepth (L.map (·.2)) ⟨t, i⟩ : Int)))) ∧
+        ((C12.run (Dag.init ne np nc) es).nodeIds ≠ [] →
+          Metrics.circuitDepth (C12.run (Dag.init ne np nc) es) = (Spec.depth (L.map (·.2)) : Int)) := by
+  obtain ⟨P, g⟩ := C12.history_from_init ne np nc es hok
+  refine ⟨P, g, sched_exists g, fun L hS => ?_⟩
+  obtain ⟨h1, _, h3, _⟩ := depth_metrics_with_user_labels g hk hS
+  exact ⟨h1, h3⟩
+
 /-- … in closed form: the metrics of the reached circuit are the specifications evaluated on `wireOpList` of it, a computable
     function of the wires `reg_gate_history` returns and of the node operations -/
 theorem metrics_after_history_of_wires (ne np nc : Nat) (es : List C12.Edit) (hok : C12.HistOKg (Dag.init ne np nc) es) :
@@ -865,6 +910,25 @@ example : histCircuit.registerDepth.toOption = some ([2, 6], [3], [0]) ∧
     edges and the code returns `depth = −1`, whereas the longest dependency chain of the (empty) operation list has length 0
     (the real `CircuitDepth().evaluate` returns −1 there as well; the correspondence harness accepts −1 on the empty graph) -/
 example : Metrics.circuitDepth (Dag.init 0 0 0) = -1 ∧ Spec.depth [] = 0 ∧ (Dag.init 0 0 0).nodeIds = [] := by decide
+
+/-- the depth theorems on a circuit with a user label: the time-reversed solver's first move on `CircuitDAG(1, 1, 1)` —
+    `insert_at(MeasurementCNOTandReset labelled "Fixed", [first edge of e0, first edge of p0])` — is a well-formed history, the circuit
+    reached satisfies `NoInputKey`, and both sides of the depth clause are 1 (kernel-evaluated) -/
+def mcrFixedE0 : Op := ⟨.mcr, [⟨.e, 0⟩, ⟨.p, 0⟩], [0], ["two-qubit", "Fixed"], []⟩
+
+def solverStep : List C12.Edit :=
+  [.insertAt mcrFixedE0 [⟨.inp ⟨.e, 0⟩, .out ⟨.e, 0⟩, ⟨.e, 0⟩⟩, ⟨.inp ⟨.p, 0⟩, .out ⟨.p, 0⟩, ⟨.p, 0⟩⟩]]
+
+example : C12.HistOK (Dag.init 1 1 1) solverStep ∧ NoInputKey (C12.run (Dag.init 1 1 1) solverStep) ∧
+    Metrics.circuitDepth (C12.run (Dag.init 1 1 1) solverStep) = 1 ∧ Spec.depth [quantumPart mcrFixedE0] = 1 ∧
+    (C12.run (Dag.init 1 1 1) solverStep).registerDepth.toOption = some ([1], [1], [0]) := by
+  refine ⟨⟨⟨?_, ?_⟩, trivial⟩, noInputKey_of_check (by decide), by decide, by decide, by decide⟩
+  · exact { not_input := by decide, not_output := by decide, qregs_ne := by decide, qregs_nodup := by decide,
+            cregs_nodup := by decide, qregs_quantum := by decide,
+            wrapper_shape := by intro h; exact absurd h (by decide),
+            wrapper_key := by intro h; exact absurd h (by decide) }
+  · exact C12.insert_at_input_edges_is_well_formed (C12.init_dagInv 1 1 1) (by decide) rfl
+      (by intro e he; simp at he; rcases he with rfl | rfl <;> exact ⟨_, rfl⟩)
 
 /-- wire determinacy, non-vacuity: `add(CNOT e0→e1); add(H p0)` and `add(H p0); add(CNOT e0→e1)` are different circuits (the node
     identities are swapped) with the same register counts and the same operation sequence on every wire (kernel-evaluated on the
